@@ -307,6 +307,17 @@ def Disk.reset (s : Disk) : Disk :=
   { s with rdb := none, segs := [], live := none, readers := closeAllReaders s.readers,
            hbase := 0, hist := [] }
 
+/-- a replication-id switch closes what is open on the old index: every reader
+    is closed, a snapshot being written is dropped (temporary file removed), the
+    live segment gets its header (or is trimmed when empty) -/
+def Disk.dropWritingRdb (s : Disk) : Disk :=
+  match s.rdb with
+  | some r => if r.writing then { s with rdb := none } else s
+  | none => s
+
+def Disk.closeAllForSwitch (s : Disk) : Disk :=
+  ({ s with readers := closeAllReaders s.readers } : Disk).dropWritingRdb.closeLive
+
 /-! ### readers -/
 
 def findReader (rs : List DReader) (rid : Nat) : Option DReader := rs.find? (·.id == rid)
@@ -397,10 +408,15 @@ def Disk.closeReader (s : Disk) (rid : Nat) : Disk × Out :=
 
 def Disk.step (s : Disk) : DOp → Disk × Out
   | .setRunId id =>
-    -- SetRunId → newRunId → initDataSet: the index is rebuilt from the files
-    -- (a fresh id starts with an empty directory when there was no id before)
+    -- SetRunId / VerifyRunId → newRunId (repaired, D27):
+    -- * no id before: a fresh id starts with an empty directory;
+    -- * the same id again (every source reconnect: StartPoint → VerifyRunId):
+    --   the live index is kept — nothing is re-scanned, nothing is orphaned;
+    -- * another id (replication-id switch, directory renamed): everything open
+    --   on the old index is closed, then the index is rebuilt from the files.
     if s.runId = "" then ({ s.reset with runId := id }, .ok)
-    else ({ s.rescan with runId := id }, .ok)
+    else if id = s.runId then (s, .ok)
+    else ({ s.closeAllForSwitch.rescan with runId := id }, .ok)
   | .delRunId =>
     if s.runId = "" then (s, .ok) else ({ s.reset with runId := "" }, .ok)
   | .newRdbWriter off size =>
@@ -454,7 +470,8 @@ def Disk.run (s : Disk) : List DOp → Disk
 /-- The callers' protocol (what syncer/input.go and syncer/replica.go
     guarantee): a stream writer continues where the held stream ends (or, with
     nothing held, where the snapshot ends); snapshot chunks never exceed the
-    announced size; the directory is re-scanned only with nothing open. -/
+    announced size; the replication id is switched only between two runs of the
+    input (no writer open; readers may be). -/
 def Disk.okOp (s : Disk) : DOp → Prop
   | .newAofWriter off =>
     match lastRight s.closeLive.segs, s.rdb with
@@ -468,8 +485,10 @@ def Disk.okOp (s : Disk) : DOp → Prop
     | some r => r.writing = true → r.data.length + chunk.length ≤ r.size
     | none => True
   | .aofAppend chunk => chunk ≠ []
-  | .setRunId _ =>
-    s.runId ≠ "" → (s.readers.all (fun r => !r.isOpen) = true) ∧ s.live = none ∧
+  | .setRunId id =>
+    -- an id SWITCH happens between two runs of the input: its writers are closed
+    -- (readers may be open; the same id again is always allowed)
+    s.runId ≠ "" → id ≠ s.runId → s.live = none ∧
       match s.rdb with
       | some r => r.writing = false
       | none => True
